@@ -1,0 +1,37 @@
+//go:build verif
+
+package ua
+
+import "encoding/binary"
+
+// Hooks of the verification framework (/verif, property C04): build and
+// inspect NodeIDs field by field.  Add-only, compiled with -tags verif only.
+
+// VerifMakeNodeID builds a NodeID from its raw fields. gid is nil (no GUID)
+// or the 16 bytes Data1|Data2|Data3|Data4 in the order of the text form.
+func VerifMakeNodeID(mask byte, ns uint16, nid uint32, bid []byte, gid []byte) *NodeID {
+	n := &NodeID{mask: NodeIDType(mask), ns: ns, nid: nid, bid: bid}
+	if gid != nil {
+		g := &GUID{}
+		if len(gid) >= 8 {
+			g.Data1 = binary.BigEndian.Uint32(gid[:4])
+			g.Data2 = binary.BigEndian.Uint16(gid[4:6])
+			g.Data3 = binary.BigEndian.Uint16(gid[6:8])
+			g.Data4 = append([]byte(nil), gid[8:]...)
+		}
+		n.gid = g
+	}
+	return n
+}
+
+// VerifNodeIDParts returns the raw fields of a NodeID; gid as in VerifMakeNodeID.
+func VerifNodeIDParts(n *NodeID) (mask byte, ns uint16, nid uint32, bid []byte, gid []byte) {
+	if n.gid != nil {
+		gid = make([]byte, 8, 16)
+		binary.BigEndian.PutUint32(gid[:4], n.gid.Data1)
+		binary.BigEndian.PutUint16(gid[4:6], n.gid.Data2)
+		binary.BigEndian.PutUint16(gid[6:8], n.gid.Data3)
+		gid = append(gid, n.gid.Data4...)
+	}
+	return byte(n.mask), n.ns, n.nid, n.bid, gid
+}
